@@ -189,13 +189,16 @@ def chk_fallback(ctx, case):
     ps = [float(x) for x in case["ps"]]; r = float(case["r"])
     arr = np.array(ps, dtype=np.float64)
     kw = {"atol": case["atol"]} if case.get("atol") else {}
+    st, val = m.try_call("c14.gen_data", [1], [case.get("atol") or 1e-13, r] + ps)
     try:
         data = dg.generate_data_from_prob_dist(arr, 1, _FixedStream([r]), **kw)
     except ValueError as e:
         ctx.count("fallback", key=(tuple(ps), r), nontrivial=False, label="rejected-by-validation")
+        if st == "ok":
+            ctx.violation("fallback", "data_generator.generate_data_from_prob_dist", "unexpected-raise",
+                          "prob_dist %s with atol=%r is rejected (%s); validate_prob_dist with that tolerance accepts it" % (ps, case.get("atol"), str(e)[:80]), case)
         return
     impl = data[0]
-    st, val = m.try_call("c14.gen_data", [1], [case.get("atol") or 1e-13, r] + ps)
     at_end = r >= float_cums(ps)[-1]                  # the float loop runs to its end
     ctx.count("fallback", key=(tuple(ps), r), label=case["kind"] + ("/loop-end" if at_end else "/early-return"), nontrivial=at_end)
     if 0 <= r < 1 and 0 <= impl < len(ps) and ps[impl] == 0.0:
@@ -244,11 +247,23 @@ def chk_gen_data(ctx, case):
     ps = [float(x) for x in case["ps"]]; n = case["n"]; seed = case["seed"]
     arr = np.array(ps, dtype=np.float64)
     rs = [float(x) for x in np.random.Generator(np.random.MT19937(seed)).random(n)]      # oracle
+    # the tolerance: explicit argument (`atol if atol else Settings.get_atol()`: None and 0.0 mean "use the global setting") or the
+    # global setting, which a case may change for the duration of the call
+    from quara.settings import Settings
+    atol_arg, atol_set = case.get("atol"), case.get("settings_atol")
+    kw = {} if "atol" not in case else {"atol": atol_arg}
+    old = Settings.get_atol()
     try:
-        impl = ("ok", dg.generate_data_from_prob_dist(arr, n, seed))
-    except ValueError as e:
-        impl = ("err", str(e))
-    st, val = m.try_call("c14.gen_data", [n], [1e-13] + rs + ps)
+        if atol_set is not None:
+            Settings.set_atol(atol_set)
+        eff_atol = atol_arg if atol_arg else Settings.get_atol()
+        try:
+            impl = ("ok", dg.generate_data_from_prob_dist(arr, n, seed, **kw))
+        except ValueError as e:
+            impl = ("err", str(e))
+    finally:
+        Settings.set_atol(old)
+    st, val = m.try_call("c14.gen_data", [n], [eff_atol] + rs + ps)
     exact = exact_sums(ps)
     ctx.count("gen_data", key=(tuple(ps), n, seed), label="%s/%s" % (st, case.get("kind", "valid")), nontrivial=(st == "ok" and n > 0))
     if st == "err":
@@ -273,7 +288,7 @@ def chk_gen_data(ctx, case):
             return
     # the same call again, after unrelated global activity: identical (int seed)
     np.random.seed(case["seed"] + 1); np.random.random(3)
-    again = dg.generate_data_from_prob_dist(arr, n, seed)
+    again = dg.generate_data_from_prob_dist(arr, n, seed, **kw) if atol_set is None else data
     if again != data:
         ctx.violation("gen_data", "data_generator.generate_data_from_prob_dist", "int-seed-not-reproducible", "second call differs", case)
 
@@ -298,6 +313,19 @@ def sub_gen_data(ctx):
         else:
             ps = list(ps) + [-2.0 ** -60]        # inside the tolerance: accepted
         cases.append({"ps": ps, "n": 5, "seed": rng.randint(0, 2 ** 31), "kind": kind})
+    # explicit atol argument / non-default global setting: a vector whose sum misses 1 by d is accepted iff d <= the EFFECTIVE tolerance
+    for _ in range(cn(ctx, 16, 80)):
+        ps, _ = rand_probvec(rng, dyadic=True)
+        j = max(range(len(ps)), key=lambda t: ps[t])
+        d = 2.0 ** -rng.choice([20, 30])
+        ps = list(ps); ps[j] += rng.choice([d, -d])
+        c = {"ps": ps, "n": 5, "seed": rng.randint(0, 2 ** 31), "kind": "atol"}
+        u = rng.random()
+        if u < 0.4: c["atol"] = rng.choice([2.0 ** -10, 2.0 ** -25, 2.0 ** -40])            # explicit argument decides
+        elif u < 0.55: c["atol"] = rng.choice([None, 0.0]); c["settings_atol"] = 2.0 ** -10   # None / 0.0: the global setting decides
+        elif u < 0.8: c["settings_atol"] = rng.choice([2.0 ** -10, 2.0 ** -25])               # no argument, non-default global setting
+        else: c["atol"] = 2.0 ** -40; c["settings_atol"] = 2.0 ** -10                         # the argument wins over the setting
+        cases.append(c)
     ctx.sample("gen_data", cases[0])
     ctx.run_cases("gen_data", chk_gen_data, cases)
 
